@@ -184,3 +184,16 @@ CONTRACTS += [
                        f'result[0].start == {_MS} and result[0].length == {_ME} - {_MS}))')],
              note='exactly one regex match (environment value); own token: neither neighbour is a digit or a letter'),
 ]
+
+# an IPv6 address that begins (or ends) with the ellipsis at the very start (end) of the query: the guards that look at the
+# neighbouring character must not look anywhere when there is no neighbour
+CONTRACTS += [
+    Contract(f'c13.ip_extractor.ellipsis_at_the_{where}', SX + 'BaseIpExtractor.extract', ['C13'], setup=_seq_setup, unroll=12,
+             loops={'__no_global__': True},
+             params=dict(self=Rec(SX + 'BaseIpExtractor', {}), h0=Int(0, 15), h1=Int(0, 15), source=Expr(text)),
+             regex_env={'rx0': {'count': 1, 'exact': True, 'full': True}},
+             ensures=[('the-address-is-reported-with-its-span',
+                       'len(result) == 1 and result[0].start == 0 and result[0].length == len(source) and result[0].text == source')],
+             note=f'layout {text}: the whole query is one match (environment value); hexadecimal digits symbolic')
+    for where, text in (('start', '"::" + hex_char(h0) + hex_char(h1)'), ('end', 'hex_char(h0) + hex_char(h1) + "::"'))
+]
